@@ -23,10 +23,13 @@ def rdiv(x, l):
 
 class C02(Prop):
     pid = "C02"
-    lean_targets = ["M17.Props.C02"]
+    lean_targets = ["M17.Props.C02", "M17.Props.C02D"]
     theorems = ["M17.C02.gen_transitions", "M17.C02.gen_limits", "M17.C02.costTables_ok", "M17.C02.dp_le", "M17.C02.trace_spec",
                 "M17.C02.argmin_spec", "M17.C02.dp_argmin", "M17.C02.branch_is_soft_distance", "M17.C02.pathCost_is_soft_distance",
-                "M17.C02.decode_is_argmin", "M17.C02.metric_bound", "M17.C02.roundDiv_never_half"]
+                "M17.C02.decode_is_argmin", "M17.C02.metric_bound", "M17.C02.roundDiv_never_half",
+                "M17.C02D.lin_ok", "M17.C02D.mham_linear", "M17.C02D.back_le", "M17.C02D.scan_le", "M17.C02D.softDist_full",
+                "M17.C02D.corrects_below_half_distance", "M17.C02D.geometry_distances", "M17.C02D.lsf_single_error_corrected",
+                "M17.C02D.stream_double_error_prefix"]
     level_text = ("Lean 4 theorems for trellises of every length and every in-range soft vector: the modelled forward pass computes, per end "
                   "state, the minimum over all paths (induction: lower bound + attainment by the traced survivor), the end-state selection is "
                   "a minimum, so the returned payload is a prefix of a globally minimum-distance input sequence from the zero state and the "
@@ -34,8 +37,13 @@ class C02(Prop):
                   "tables of all five widths and the x^0/x^4 tap symmetries by kernel evaluation); int32 metrics cannot overflow. The model "
                   "mirrors the code's comparisons so it agrees bit-for-bit with the C++ (checked on all geometries and widths); the C++ is also "
                   "checked against an independent forward DP with forced prefix and against brute force for IN<=24. "
-                  "The corollary 'every error pattern lighter than half the punctured distance is corrected' is covered by exploration "
-                  "only (random patterns of weight below the measured free distance), not by a theorem.")
+                  "The corollary (M17.Props.C02D) is a theorem too: corrects_below_half_distance — for every width, every mask of received "
+                  "positions, every message and every full-confidence word with w errors on received positions, 2w < d implies the payload is "
+                  "returned, where d is COMPUTED by a verified backward dynamic program over the error trellis (the code is linear: lin_ok; "
+                  "scan_le: the scan value bounds the masked weight of every input sequence that is non-zero inside the payload) and evaluated "
+                  "in the kernel for the four geometries (geometry_distances): 3/2/3/3 over all payload pairs — the decoder does not force the "
+                  "end state, so the last payload bits are the weakest — and 4/6/5/5 for pairs differing at least 12 bits before the end; "
+                  "instances lsf_single_error_corrected and stream_double_error_prefix.")
     design_ref = "DESIGN.md §5 C02"
     level_note = ("Trusted: Lean kernel; dump_tables.cpp; hand translation M17/Model/Viterbi.lean validated by the correspondence stream; "
                   "std::round(min/float(L)) = (2min+L)/(2L) relies on L odd (proved) and on float division being accurate to better than 1/(2L) "
